@@ -16,6 +16,7 @@ import (
 
 	"verif/gen"
 	"verif/harness"
+	"verif/mon"
 	"verif/ref"
 	"verif/schema"
 	"verif/zoo"
@@ -276,7 +277,16 @@ func RunSubC07(spec string) {
 						viol("decode-error-type", "op %d DecodeObject(%s): missing required field reported as %v", k, t.name, dr.err)
 					}
 				}
-				t.fresh = true // contents after a failed decode are unspecified
+				// contents after a failed decode are unspecified - but they are the destination's
+				// prior contents of the next call: either start afresh, or keep what frugal left
+				// and hand the reference model a deep copy taken right now (what the failed call
+				// stored must not be touched by anybody's later calls)
+				if dr.err != nil && r.Bool() {
+					t.dstR = mon.DeepClone(t.dstF.Elem()).Addr()
+					res.OpCounts["kept-partial-destination"]++
+				} else {
+					t.fresh = true
+				}
 				t.failedBefore = true
 				continue
 			}
